@@ -1120,6 +1120,12 @@ def ev_call(ctx, node, env):
                 return (max if name == "max" else min)(args[0][1:], key=lambda x: x[1])
             if name in ("list", "tuple"):
                 return (name,) + tuple(args[0][1:])
+        if name in ("list", "tuple") and len(args) == 1 and not kws and args[0][0] in ("tuple", "list"):
+            return (name,) + tuple(args[0][1:])                       # list(literal) / tuple(literal): a copy
+        if name in ("list", "tuple") and len(args) == 1 and not kws and args[0][0] == "call" and args[0][1] in ("range", "zip", "enumerate", "reversed"):
+            items_ = iter_items(args[0])
+            if items_ is not None and len(items_) <= 64:
+                return (name,) + tuple(items_)                         # list(range(3)), list(zip(lit, lit)) ...
         if name == "sorted" and len(args) == 1 and not kws and args[0][0] in ("tuple", "list") and all(x[0] == "num" for x in args[0][1:]):
             return ("list",) + tuple(sorted(args[0][1:], key=lambda x: x[1]))
         if name == "len" and len(args) == 1 and args[0][0] in ("tuple", "list"):
